@@ -151,17 +151,21 @@ def comp_check(ctx, defs):
             base = G.user_subset(rng, d, rng.choice([0.3, 0.6, 0.9]))
             jobs.append((omit, d, base, "ok", {"level": lvl, "class": "valid-subset"}))
             # unknown key at every dictionary node
+            plain = ["zz_unknown"] + sorted(set(G.OMIT["programs"] + G.OMIT["methods"] + G.OMIT["simulation_settings"]))
+            # name-aware stream: substrings / case variants / neighbours of every key, level name and omit key
+            derived = [x for x in G.derived_unknown_names(rng, defs, omit, ctx.pick(40, None)) if x not in plain] if rep == 0 else []
             for node in G.dict_nodes(d):
-                for name in ["zz_unknown"] + sorted(set(G.OMIT["programs"] + G.OMIT["methods"] + G.OMIT["simulation_settings"])):
+                for name in plain + derived:
                     if name in get_or_empty(d, node):
                         continue
                     if not node and name in omit and name != "quantification_parameters":
                         continue  # top-level `programs` / `methods` / `default_parameters`: exempt by design
-                    t = with_path(rng, base, node + (name,), rng.choice([1, "v", {"q": 1}, [2]]))
-                    exempt = name in omit or under_omit(node, omit)
+                    small = name in derived
+                    t = with_path(rng, {} if small else base, node + (name,), rng.choice([1, "v", {"q": 1}, [2]]))
+                    exempt = name in omit or under_omit(node, omit)   # an omitted key as a WHOLE, nothing else
                     jobs.append((omit, d, t, "known" if exempt else "reject",
-                                 {"level": lvl, "class": "unknown-key", "path": list(node + (name,)),
-                                  "omit_key": name in omit}))
+                                 {"level": lvl, "class": "unknown-key:derived-name" if small else "unknown-key",
+                                  "path": list(node + (name,)), "omit_key": name in omit}))
             # every wrong type at every leaf and every dictionary node
             paths = [p for p, _ in G.leaves(d)] + [p for p in G.dict_nodes(d) if p]
             for p in paths:
@@ -184,7 +188,7 @@ def comp_check(ctx, defs):
     lines = ["check " + T.to_line([om, d, t]) for (om, d, t, _, _) in jobs]
     model = lean(lines)
     for (om, d, t, expect, meta), ml in zip(jobs, model):
-        r = T.real_check(om, d, t)
+        r = T.real_check(real_omit(meta["level"], om) if meta["level"] != "generic" else om, d, t)
         il = "ok" if r[0] == "ok" else "reject:" + r[1]
         ctx.evaluations += 1
         ctx.count("check:" + il)
@@ -518,8 +522,13 @@ def corruptions(rng, defs, files, full):
             out.append((cls, expect, fs))
 
         nodes = list(G.dict_nodes(d))
+        derived = [x for x in G.derived_unknown_names(rng, defs, omit, 12) if x not in omit and x != "zz_unknown"]
+        if len(derived) > 60:       # (methods: two long omit keys) keep the end-to-end sweep affordable
+            derived = rng.sample(derived, 60)
+        if not full:
+            derived = rng.sample(derived, min(3, len(derived)))
         for node in (nodes if full else rng.sample(nodes, min(2, len(nodes)))):
-            for name in ["zz_unknown"] + list(omit):
+            for name in ["zz_unknown"] + list(omit) + derived:
                 if name in get_or_empty(d, node) or (kind == "method" and name == "default_parameters" and not node):
                     continue
                 if kind == "sim" and name == "programs":
@@ -817,6 +826,53 @@ def e2e(ctx, defs):
         run.finish()
 
 
+def check_omit_table(ctx):
+    """table obligation on the call sites of check_types: every `omit_keys` argument is a list / tuple
+    DISPLAY of strings (membership `i not in omit_keys` is then equality with an element, as the model's
+    `List.contains`), never a bare string or another expression, and its value is the omit list the
+    model uses for that level.  Returns the evaluated objects per level: the component sweep hands
+    exactly these to the real check_types, so a call site that passes something else is confronted with
+    every derived unknown key."""
+    ctx.obligations.append("table:omit-keys-call-sites")
+    try:
+        rows = T.omit_call_sites()
+    except Exception as e:  # noqa: BLE001
+        ctx.broke("table:omit-keys-call-sites", f"cannot read the check_types call sites: {e!r}")
+        return {}
+    with_kw = [r for r in rows if r[1] is not None]
+    levels = ["simulation_settings", "programs", "methods"]
+    real = {}
+    problems = []
+    if len(rows) != 5 or len(with_kw) != 3:
+        problems.append(f"{len(rows)} check_types calls, {len(with_kw)} with omit_keys (expected 5 / 3)")
+    for lvl, (line, src, node, val) in zip(levels, with_kw):
+        real[lvl] = val
+        if not (node.startswith("List[") or node.startswith("Tuple[")):
+            problems.append(f"line {line}: omit_keys={src} is a {node}, not a list/tuple display")
+        if not isinstance(val, (list, tuple)) or not all(isinstance(x, str) for x in val):
+            problems.append(f"line {line}: omit_keys={src} evaluates to {val!r} ({type(val).__name__}), not a list/tuple of strings")
+        elif list(val) != G.OMIT[lvl]:
+            problems.append(f"line {line}: omit_keys={src} evaluates to {list(val)!r}, the model omits {G.OMIT[lvl]!r}")
+    if problems:
+        ctx.broke("table:omit-keys-call-sites", "; ".join(problems))
+    else:
+        ctx.discharged.append("table:omit-keys-call-sites")
+    ctx.extra["omit_keys_call_sites"] = [[r[0], r[1], r[2], repr(r[3])] for r in rows]
+    return real
+
+
+REAL_OMIT = {}   # level -> the object the real call site passes as omit_keys (filled by check_omit_table)
+
+
+def real_omit(lvl, intended):
+    """what the real intake passes for this level: the call site's own object; no argument for the
+    virtual_world / outputs calls"""
+    key = lvl.split("/")[0]
+    if key in ("virtual_world", "outputs"):
+        return None
+    return REAL_OMIT.get(key, intended)
+
+
 C18_SOURCES = ["file_processing/input_processing/input_manager.py", "utils/check_parameter_types.py",
                "initialization/versioning.py"]
 
@@ -941,6 +997,11 @@ def run(ctx):
     stage(ctx, "constants", check_constants, ctx)
     stage(ctx, "state-table", check_state_table, ctx)
     try:
+        REAL_OMIT.clear()
+        REAL_OMIT.update(check_omit_table(ctx))
+    except Exception as e:  # noqa: BLE001
+        ctx.broke("table:omit-keys-call-sites", repr(e))
+    try:
         defs = T.load_defaults()
     except Exception as e:  # noqa: BLE001
         ctx.broke("default parameter files", f"cannot load src/default_parameters: {e!r}")
@@ -970,7 +1031,18 @@ def replay(ctx, data):
         return 1
     defs = T.load_defaults()
     if op == "check":
-        r = T.real_check(inp["omit"], inp["default"], inp["test"])
+        # the omit_keys object of the real call site of that level (what the intake really passes)
+        om = inp["omit"]
+        lvl = (inp.get("meta") or {}).get("level", "generic")
+        if lvl != "generic":
+            try:
+                with_kw = [r for r in T.omit_call_sites() if r[1] is not None]
+                REAL_OMIT.update(dict(zip(["simulation_settings", "programs", "methods"], [r[3] for r in with_kw])))
+            except Exception as e:  # noqa: BLE001
+                print("replay: cannot read the call sites:", e)
+            om = real_omit(lvl, om)
+        print("omit_keys as the call site passes them:", repr(om))
+        r = T.real_check(om, inp["default"], inp["test"])
         print("check_types ->", r)
         bad = r[0] == "ok"
         print("oracle:", "corruption ACCEPTED" if bad else "rejected")
